@@ -18,7 +18,7 @@ RULE = ("fits and paths of the five sparse estimators: every GEMINI, alpha in {0
 ASSUMPTIONS = ["reference proximal operators of C05 (closed form / bisection)",
                "rows whose skip weights are zero but hidden weights are not (non-unique minimiser) are skipped and counted"]
 EVAL_COUNTER = "evaluations"
-REQUIRED = {"quick": {"steps_checked": 4000, "steps_with_shrinkage": 2000, "quiescent_points": 400,
+REQUIRED = {"quick": {"preliminary_fits_with_other_groups": 30, "steps_checked": 4000, "steps_with_shrinkage": 2000, "quiescent_points": 400,
                       "quiescent_with_unselected": 100, "inertness_perturbations": 100, "group_wholeness_checks": 80,
                       "steps:linear": 1000, "steps:mlp": 1000, "steps_grouped": 500},
             "thorough": {"steps_checked": 80000, "quiescent_points": 8000}}
@@ -252,6 +252,24 @@ def run_case(case, ctx, st):
     if isinstance(g, str) and g.startswith("wasserstein"):
         pass
     est = gen.build_estimator(name, params)
+    if rng.random() < 0.3:
+        # the same object was used before with ANOTHER group structure (a grid search re-configuring one estimator): what
+        # counts afterwards is the structure in force
+        import copy as _copy
+        other = gen.random_groups(rng, d)
+        for _ in range(5):
+            if other != params.get("groups"):
+                break
+            other = gen.random_groups(rng, d)
+        est.set_params(groups=_copy.deepcopy(other))
+        st.user_groups = other
+        st.X = X
+        try:
+            est.set_params(max_iter=2).fit(X)
+            ctx.count("preliminary_fits_with_other_groups")
+        except Exception as e:
+            ctx.count("run_raised:" + type(e).__name__)
+        est.set_params(groups=_copy.deepcopy(params.get("groups")), max_iter=params["max_iter"])
     st.user_groups = params.get("groups")
     st.X = X
     use_path = (i % 2 == 0)
